@@ -30,7 +30,7 @@ pub fn plan(prop: &str) -> Vec<Batch> {
         "C04" => vec![b("A", "sckill", 30_000, 600_000), b("A", "weakkill", 20_000, 500_000), b("A", "corrupt", 8_000, 200_000), b("B", "restart", 8_000, 200_000)],
         "C11" => vec![b("A", "marathon", 6, 48), b("A", "sweep", 6_144, 6_144), b("A", "sckill", 20_000, 400_000), b("A", "sc", 10_000, 200_000), b("A", "corrupt", 8_000, 200_000)],
         "C16" => vec![b("A", "corrupt", 60_000, 1_500_000), b("A", "sckill", 6_000, 100_000), b("B", "abi", 4_000, 80_000)],
-        "C18" => vec![b("A", "marathon", 6, 48), b("A", "deadwriter", 48, 640), b("A", "flood", 4, 64), b("A", "busy", 20_000, 400_000), b("A", "sckill", 20_000, 400_000), b("A", "weakkill", 10_000, 300_000)],
+        "C18" => vec![b("A", "marathon", 6, 48), b("A", "deadwriter", 48, 640), b("A", "flood", 4, 64), b("A", "busy", 20_000, 400_000), b("A", "sckill", 20_000, 400_000), b("A", "weakkill", 10_000, 300_000), b("B", "abi", 4_000, 100_000)],
         "C17" => vec![b("A", "sc", 8_000, 100_000), b("A", "corrupt", 8_000, 100_000), b("B", "abi", 16_000, 400_000), b("B", "synthetic", 16_000, 400_000)],
         "C01" => vec![b("A", "deadwriter", 16, 160), b("A", "sckill", 6_000, 100_000), b("B", "pipeline", 24_000, 600_000), b("B", "restart", 12_000, 300_000), b("B", "tight", 16_000, 400_000), b("B", "coldstart", 8_000, 200_000), b("B", "outage", 8_000, 200_000)],
         "C05" => vec![b("A", "deadwriter", 16, 160), b("B", "synthetic", 30_000, 800_000), b("B", "pipeline", 12_000, 300_000), b("B", "tight", 6_000, 100_000)],
